@@ -255,8 +255,9 @@ def locate_impl(src, kind, impl_rx):
     return spans
 
 
-def locate_fn(src, kind, name, spans):
-    """(fn_kw_offset, body_open, body_close) of `fn name` inside one of spans."""
+def locate_fn(src, kind, name, spans, nth=None):
+    """(fn_kw_offset, body_open, body_close) of `fn name` inside one of spans (nth: 1-based choice among several
+    definitions of the same name, e.g. one per #[cfg])."""
     found = []
     for (a, b) in spans:
         for m in code_finditer(src, kind, r'\bfn\s+' + re.escape(name) + r'\b', a, b):
@@ -281,8 +282,12 @@ def locate_fn(src, kind, name, spans):
                 found.append((m.start(), body, match_close(src, kind, body)))
     if not found:
         raise LiftError("fn %s not found" % name)
+    if nth is not None:
+        if not (1 <= nth <= len(found)):
+            raise LiftError("fn %s: nth=%d but %d definition(s) found" % (name, nth, len(found)))
+        return found[nth - 1]
     if len(found) > 1:
-        raise LiftError("fn %s is ambiguous (%d matches); give impl=" % (name, len(found)))
+        raise LiftError("fn %s is ambiguous (%d matches); give impl= or nth=" % (name, len(found)))
     return found[0]
 
 
@@ -520,7 +525,7 @@ def parse_kv(s):
     return out
 
 
-SUB_RX = re.compile(r'^\s*"((?:[^"\\]|\\.)*)"\s*=>\s*"((?:[^"\\]|\\.)*)"\s*(?:count=(\d+))?\s*$')
+SUB_RX = re.compile(r'^\s*"((?:[^"\\]|\\.)*)"\s*=>\s*"((?:[^"\\]|\\.)*)"\s*(?:count=(\d+|\*))?\s*$')
 
 
 def unesc(s):
@@ -647,7 +652,7 @@ def parse_template(text):
                         mm = SUB_RX.match(arg)
                         if not mm:
                             raise LiftError("template line %d: bad sub %r" % (start_line, arg))
-                        d.subs.append((unesc(mm.group(1)), unesc(mm.group(2)), int(mm.group(3) or 1)))
+                        d.subs.append((unesc(mm.group(1)), unesc(mm.group(2)), -1 if mm.group(3) == '*' else int(mm.group(3) or 1)))
                     elif kw == 'ret':
                         d.ret = arg.strip()
                     elif kw == 'cut':
@@ -749,7 +754,7 @@ def lift_one(d, repo, canary=False, rename_suffix=None):
         h.setdefault('fn', h.get('name', 'block'))
         fn_kw, b_open, b_close = 0, 0, len(src) - 1
     else:
-        fn_kw, b_open, b_close = locate_fn(src, kind, h['fn'], spans)
+        fn_kw, b_open, b_close = locate_fn(src, kind, h['fn'], spans, int(h['nth']) if 'nth' in h else None)
     info = {
         'name': h.get('name', h['fn']), 'file': rel, 'fn': h['fn'], 'impl': h.get('impl'),
         'rules': {}, 'subs': [], 'woven': [], 'labels': {},
@@ -838,7 +843,8 @@ def lift_one(d, repo, canary=False, rename_suffix=None):
             for p in reversed(offs):
                 t.replace(p, p + len(old), new, keep_origin=True)
             tot += len(offs)
-        if tot != cnt:
+        # count=* : a pure renaming (e.g. a path prefix mapped to the prelude's mirror type), applied wherever it occurs
+        if cnt != -1 and tot != cnt:
             raise LiftError("%s: sub %r expected %d occurrence(s), found %d" % (info['name'], old, cnt, tot))
         info['subs'].append({'old': old, 'new': new, 'count': tot})
 
